@@ -148,11 +148,17 @@ struct Case {
     /// (remember_state nesting, extra register rules, expression stack padding)
     stress: (u8, u16, u8),
     probes: Vec<(u64, bool, RegsAny, MemDesc, bool)>,
+    /// Before these probe indices the module set changes (a data-less module is added far
+    /// away): the cache keeps entries of the previous module-set identity.
+    regen_at: Vec<usize>,
 }
 
 fn describe(c: &Case, upto: usize) -> String {
     let mut s = format!("arch={} cfi-padding(remember_state,extra-registers,expression-stack)={:?} mod {}\n", c.arch.name(), c.stress, c.m.line_fields());
-    for (addr, is_ra, regs, mem, iter) in c.probes.iter().take(upto + 1) {
+    for (k, (addr, is_ra, regs, mem, iter)) in c.probes.iter().take(upto + 1).enumerate() {
+        if c.regen_at.contains(&k) {
+            s.push_str("add_module(a module without unwind data, elsewhere)   # the module set changes here\n");
+        }
         s.push_str(&format!(
             "{} kind={} addr={} {} mem={}\n",
             if *iter { "iter" } else { "unwind" }, if *is_ra { "ra" } else { "ip" }, hex(*addr), regs.line(), mem.to_line()
@@ -176,7 +182,17 @@ fn run_case<HA: ArchH, HN: ArchH>(rep: &mut Report, c: &Case) {
     un.add_module(module);
     let mut ca = HA::new_cache();
     let mut cn = HN::new_cache();
+    let mut extra_start = 0x7e00_0000_0000u64;
     for (i, (addr, is_ra, regs, mem, iter)) in c.probes.iter().enumerate() {
+        if c.regen_at.contains(&i) {
+            // a module-set change between two unwinding calls: not part of the measured region
+            let spec = ModSpec { start: extra_start, end: extra_start + 0x1000, base_avma: extra_start, base_svma: 0, data: DataSpec::None, enc: PtrEnc::Abs8, hdr_abs: true, dbg_version: 4, n_cies: 1 };
+            extra_start += 0x10000;
+            if let Ok(extra) = catch(|| build_module(c.arch, "extra", &spec)) {
+                ua.add_module(extra.clone());
+                un.add_module(extra);
+            }
+        }
         // a panic (known: arithmetic inside pe-unwind-info, F8-dep) is the business of C09/C14
         let r = catch(|| step::<HA, HN>(rep, c, i, format, &ua, &un, &mut ca, &mut cn, *addr, *is_ra, regs, mem, *iter));
         if r.is_err() {
@@ -384,7 +400,22 @@ fn gen_case(p: &mut Prng, arch: Arch, kind: u64) -> Case {
     } else {
         (0, 0, 0)
     };
-    Case { arch, m, probes, stress }
+    // module-set changes in the middle of the probe sequence (the same addresses are probed
+    // before and after: stale entries of the previous identity are met)
+    let mut regen_at = Vec::new();
+    if p.chance(1, 3) && probes.len() >= 4 {
+        let k = 1 + p.below(probes.len() as u64 - 2) as usize;
+        regen_at.push(k);
+        // repeat the earlier probes after the change
+        let earlier: Vec<_> = probes[..k].to_vec();
+        for e in earlier.into_iter().take(6) {
+            probes.push(e);
+        }
+        if p.chance(1, 3) {
+            regen_at.push(probes.len() - 2);
+        }
+    }
+    Case { arch, m, probes, stress, regen_at }
 }
 
 pub fn run(tier: &str, seed: u64) -> Report {
